@@ -173,7 +173,15 @@ def gen_history(r, index, e1_pool, family=None):
     j = index // len(FAMILIES)
     if family == "pairs":                       # two slots per round: consecutive pair indices
         j = 2 * j + (index % len(FAMILIES)) % 2
-    s = LC.gen_setup(r, catalogue_share=0.5)
+    # round d: a fifth of the scripts run on a model whose rates DEPEND ON t (losscommon.TD_CATALOGUE: window shapes, seasonal forcing,
+    # a smooth pulse) with the clock of the loss object moved away from zero (t0 positive / negative / non-integer / large) - the
+    # combination that tells an integration in the real time from one on an elapsed-time clock
+    td = r.random() < 0.2
+    if td:
+        s = LC.gen_setup_td_shifted(r)
+        s["obs"] = s["obs"][:3]
+    else:
+        s = LC.gen_setup(r, catalogue_share=0.5)
     cat = s["model"]["src"] == "catalogue"
     # integer-valued variants (so that int containers are admissible): initial state, grid, t0
     if r.random() < (0.6 if family == "forms" else 0.25):
@@ -183,7 +191,7 @@ def gen_history(r, index, e1_pool, family=None):
         hi = max(n + 1, int(LC.CATALOGUE[s["model"]["name"]]["T"][1]))
         s["times"] = [float(v) for v in sorted(r.sample(range(1, hi + 1), n))]
         s["grid"] = "integer"
-    if r.random() < (0.6 if family == "forms" else 0.3):
+    if r.random() < (0.6 if family == "forms" else 0.3) and not td:
         first = s["times"][0]
         s["t0"] = r.choice([round(first * r.uniform(0.2, 0.8), 3), round(first * r.uniform(0.2, 0.8), 3), -1.0])
     # replicate observations (a time observed twice or three times) and grids far from the time origin (both signs; the models of
@@ -194,7 +202,7 @@ def gen_history(r, index, e1_pool, family=None):
             k = r.randrange(len(s["times"]))
             s["times"] = s["times"][:k + 1] + [s["times"][k]] + s["times"][k + 1:]
         s["replicates"] = True
-    if 0.1 < c < 0.25:
+    if 0.1 < c < 0.25 and not td:
         shift = r.choice([738000.0, -738000.0, 10000.0, -10000.0, 1.0e6])
         s["t0"] = float(s["t0"]) + shift
         s["times"] = [float(v) + shift for v in s["times"]]
@@ -282,7 +290,7 @@ class Context(object):
 
     def __init__(self, case, rhs):
         self.case, self.s, self.rhs = case, case["setup"], rhs
-        self.box = LC.box(self.s)
+        self.box = LC.box_any(self.s)
         self._tr = {}
         s = self.s
         self.tr_true = self.traj(s["theta_true"], s["x0"])
@@ -295,7 +303,7 @@ class Context(object):
         t0 = s["t0"] if self.t0_override is None else self.t0_override
         key = (tuple(float(v) for v in theta), tuple(float(v) for v in x0), float(t0))
         if key not in self._tr:
-            self._tr[key] = LC.ref_traj(self.rhs, key[0], key[1], t0, s["times"], **self.box)
+            self._tr[key] = LC.ref_traj_any(s, self.rhs, key[0], key[1], t0, s["times"], **self.box)
         return self._tr[key]
 
     def prepare(self, k):
@@ -392,9 +400,11 @@ def execute(case, judge, judged_fns):
     tags += ["history:" + case["family"], "t0:" + ("zero" if s["t0"] == 0 else "far" if s.get("far") else "nonzero")]
     if s.get("replicates"):
         tags.append("grid:replicate-times")
+    if s["model"]["src"] == "td":
+        tags += ["rates-depend-on-t:t0%s0" % ("!=" if s["t0"] != 0 else "="), "td-model:" + s["model"]["name"], "td-shape:" + s["model"]["shape"]]
     models, rhs = [], None
     for m in case["models"]:
-        model, rhs, err = LC.build_model(s)
+        model, rhs, err = LC.build_model_any(s)
         if err:
             return {"nontrivial": False, "mismatches": [{"what": "build", "detail": err}], "violations": [], "tags": ["build_error"]}
         LC.set_params(model, s["params"], m["theta"])
@@ -411,6 +421,8 @@ def execute(case, judge, judged_fns):
 
     def sig(fn, spec, what):
         marks = int_marks(spec, s) if what in ("wrong-value", "not-reproducible") else []
+        if s["model"]["src"] == "td" and what == "wrong-value":
+            marks = marks + ["time-dependent-model"]
         return "history:%s:%s:%s%s" % (fn, what, layout_name(spec), (":" + "+".join(marks)) if marks else "")
 
     seen_x0, seen_th = {}, {}          # per object / per model: the distinct values held so far (for the diagnosis)
@@ -564,6 +576,11 @@ def execute(case, judge, judged_fns):
         ev = {"i": i, "fn": fn, "k": k, "spec": spec, "d": d, "th": th, "x0": x0, "ctx": ctx, "got": got, "arg": arg, "tags": tags}
         verdict = judge(ev)
         if verdict is None:                       # the reference for this call does not exist (see the tag the judge left)
+            continue
+        if verdict and s["model"]["src"] == "td" and LC.scipy_lsoda_off(ctx.rhs, th, x0, s["t0"], s["times"], ref):
+            # time-dependent rates: scipy's own lsoda (oracle right-hand side, no pygom) is off the reference on this very instance
+            # (a right-hand side that vanishes until the window opens lets it stride over the window): nothing to judge
+            tags.append("unjudged:scipy-lsoda-inaccurate-on-this-instance")
             continue
         judged += 1
         for v in verdict:
